@@ -118,6 +118,15 @@ pub fn run(tier: Tier) -> i32 {
     });
     run.absorb(l);
 
+    // size witnesses: strings, containers and nesting at and around 2^6 … 2^16
+    let sw = u::size_witnesses(tier);
+    run.note("size_witnesses", json!(sw.len()));
+    let l = crate::engine::par_for_stack(sw.len(), 64 << 20, |i, local| {
+        check_value(&sw[i], local, true, &zinc_roundtrip);
+        local.count("size-witnesses");
+    });
+    run.absorb(l);
+
     let shards = u::container_shards(tier);
     let mut ncont = 0u64;
     let l = par_for(shards.len(), |i, local| {
